@@ -25,7 +25,9 @@ type urlIn struct {
 	Query   string      `json:"query"`
 	Host    string      `json:"host"`
 	Hdr     [][2]string `json:"hdr"`
-	WS      bool        `json:"ws"` // send "Upgrade: websocket" (fabio's websocket path)
+	WS      bool        `json:"ws"`  // send "Upgrade: websocket" (fabio's websocket path)
+	Upg     string      `json:"upg"` // spelling of the Upgrade value when ws ("" = "websocket"); it is compared case-insensitively
+	TLSSkip bool        `json:"tlsskip"` // route option tlsskipverify=true: the proxy's second transport is used
 	Body    string      `json:"body"`
 	Cfg     pcfg        `json:"cfg"`  // proxy configuration beside the route: must not matter (request-id header apart)
 	Gzip    bool        `json:"gzip"` // proxy.gzip.contenttype configured: the gzip handler wraps the chosen handler
@@ -70,6 +72,9 @@ func (in *urlIn) routes() (string, error) {
 	}
 	if hostopt != "" {
 		opts = append(opts, "host="+hostopt)
+	}
+	if in.TLSSkip {
+		opts = append(opts, "tlsskipverify=true")
 	}
 	dst := "http://" + upstreamName + "/"
 	if tq != "" {
@@ -132,7 +137,14 @@ func (in *urlIn) wire() ([]byte, error) {
 		fmt.Fprintf(&b, "%s: %s\r\n", h[0], h[1])
 	}
 	if in.WS {
-		b.WriteString("Upgrade: websocket\r\nConnection: Upgrade\r\n")
+		upg := in.Upg
+		if upg == "" {
+			upg = "websocket"
+		}
+		if !strings.EqualFold(upg, "websocket") {
+			return nil, errors.New("not a websocket upgrade")
+		}
+		b.WriteString("Upgrade: " + upg + "\r\nConnection: Upgrade\r\n")
 		if len(body) > 0 {
 			return nil, errors.New("no body on a websocket handshake")
 		}
@@ -276,9 +288,11 @@ func genURL(r *hx.Rand, i int) interface{} {
 	}
 	in.Cfg = genCfg(r)
 	in.Gzip = r.Chance(1, 4)
+	in.TLSSkip = r.Chance(1, 8)
 	if r.Chance(1, 6) {
 		in.WS = true
 		in.Method = "GET"
+		in.Upg = r.Pick([]string{"", "", "websocket", "WebSocket", "WEBSOCKET", "webSocket"})
 	} else if in.Method != "GET" && in.Method != "HEAD" && r.Chance(2, 3) {
 		in.Body = toL1(r.Bytes(r.Intn(40)))
 	}
@@ -296,6 +310,7 @@ func init() {
 			urlIn{Strip: "/strip", Method: "GET", Path: "/strip/a!b", Host: "example.com"},
 			urlIn{Method: "GET", Path: "/ws/a%2Fb", Host: "example.com", WS: true},
 			urlIn{Strip: "/ws", Method: "GET", Path: "/ws/a%2Fb", Host: "example.com", WS: true},
+			urlIn{Strip: "/ws", Method: "GET", Path: "/ws/a%2Fb", Host: "example.com", WS: true, Upg: "WebSocket", TLSSkip: true},
 			urlIn{Strip: "/strip", Method: "GET", Path: "/%73trip/a%2Fb", Host: "example.com"},
 			urlIn{Strip: "/strip", Method: "GET", Path: "/strip%2Fa%2Fb", Host: "example.com"},
 			urlIn{Strip: "/strip", Prepend: "/p", Method: "GET", Path: "/strip%2Fa%2Fb", Host: "example.com"},
